@@ -103,6 +103,7 @@ func (h *clientConnectionHandler) onConnectionAccepted(connection *CqlServerConn
 		return err
 	} else {
 		log.Trace().Msgf("%v: client accepted: %v", h, connection.conn.RemoteAddr())
+		verifPoint("connections.accepted.beforeLock")
 		h.connectionsLock.Lock()
 		defer h.connectionsLock.Unlock()
 		holder, found := h.connections[clientAddr]
